@@ -220,7 +220,11 @@ fn dump_fn<'tcx>(
             J::arr(sig.inputs().iter().map(|t| J::str(&t.to_string())).collect()),
         );
         j.set("unsafe", J::bool(sig.safety().is_unsafe()));
-        j.set("doc_hidden", J::bool(tcx.is_doc_hidden(did)));
+        let parent_hidden = tcx
+            .opt_parent(did)
+            .map(|p| matches!(tcx.def_kind(p), DefKind::Impl { .. }) && tcx.is_doc_hidden(p))
+            .unwrap_or(false);
+        j.set("doc_hidden", J::bool(tcx.is_doc_hidden(did) || parent_hidden));
         j.set("const", J::bool(tcx.is_const_fn(did)));
         // the associated item's container
         if let Some(ai) = tcx.opt_associated_item(did) {
@@ -671,6 +675,27 @@ fn dump_body<'tcx>(tcx: TyCtxt<'tcx>, did: DefId, body: &Body<'tcx>, j: &mut J) 
                             }
                         }
                         t.set("krate", J::str(tcx.crate_name(cdid.krate).as_str()));
+                        // Send/Sync facts for the pointee of Arc operations
+                        if path.starts_with("std::sync::Arc::") || path.starts_with("alloc::sync::Arc::") {
+                            if let Some(x) = cargs.types().next() {
+                                let send = tcx.get_diagnostic_item(rustc_span::sym::Send);
+                                let sync = tcx.lang_items().sync_trait();
+                                let holds = |tr: Option<DefId>| -> bool {
+                                    match tr {
+                                        Some(tr) => {
+                                            let trf = ty::TraitRef::new(tcx, tr, [x]);
+                                            let trf = tcx.erase_and_anonymize_regions(trf);
+                                            !trf.has_param()
+                                                && tcx.codegen_select_candidate(env.as_query_input(trf)).is_ok()
+                                        }
+                                        None => false,
+                                    }
+                                };
+                                t.set("pointee", J::str(&x.to_string()));
+                                t.set("pointee_send", J::bool(holds(send)));
+                                t.set("pointee_sync", J::bool(holds(sync)));
+                            }
+                        }
                     }
                     _ => {
                         t.set("indirect", operand_json(tcx, env, body, func));
